@@ -1043,3 +1043,173 @@ pub enum MessageBounded<S: Lim> {
 	Text(#[codec(compact)] u32, BoundedBytes<S>),
 	Tag(u8),
 }
+
+// ---------------------------------------------------------------------------------------------
+// Round 4: user extension points
+// ---------------------------------------------------------------------------------------------
+
+/// Field-less enum with `index` attributes: one byte in memory, another byte on the wire.
+#[derive(Encode, Decode, DecodeWithMemTracking, MaxEncodedLen, PartialEq, Eq, Debug, Clone, Copy)]
+pub enum IdxEnum {
+	#[codec(index = 10)]
+	A,
+	#[codec(index = 20)]
+	B,
+	C,
+}
+impl Modeled for IdxEnum {
+	fn ty(_d: usize) -> String {
+		"enum 3 10 tup 0 20 tup 0 2 tup 0".into()
+	}
+	fn val(&self, out: &mut String, _c: bool) {
+		out.push_str(match self {
+			IdxEnum::A => "V 10 L 0",
+			IdxEnum::B => "V 20 L 0",
+			IdxEnum::C => "V 2 L 0",
+		});
+	}
+	fn gen(g: &mut G) -> Self {
+		[IdxEnum::A, IdxEnum::B, IdxEnum::C][g.rng.below(3) as usize]
+	}
+	fn min_len() -> usize {
+		1
+	}
+}
+
+/// A user-defined wrapper that relies on the PROVIDED `WrapperTypeDecode::decode_wrapped`
+/// (`descend_ref`, decode the wrapped type, `ascend_ref`, `into`) and on `WrapperTypeEncode`:
+/// stored inline. To the model it is a holder without a heap announcement: `box 0 T`.
+#[derive(PartialEq, Eq, Debug, Clone)]
+pub struct UserWrap<T>(pub T);
+impl<T> From<T> for UserWrap<T> {
+	fn from(t: T) -> Self {
+		UserWrap(t)
+	}
+}
+impl<T> core::ops::Deref for UserWrap<T> {
+	type Target = T;
+	fn deref(&self) -> &T {
+		&self.0
+	}
+}
+impl<T> parity_scale_codec::WrapperTypeEncode for UserWrap<T> {}
+impl<T> parity_scale_codec::WrapperTypeDecode for UserWrap<T> {
+	type Wrapped = T;
+}
+impl<T: DecodeWithMemTracking> DecodeWithMemTracking for UserWrap<T> {}
+impl<T: Modeled> Modeled for UserWrap<T> {
+	fn ty(d: usize) -> String {
+		format!("box 0 {}", T::ty(d))
+	}
+	fn val(&self, out: &mut String, c: bool) {
+		self.0.val(out, c)
+	}
+	fn gen(g: &mut G) -> Self {
+		UserWrap(T::gen(g))
+	}
+	fn min_len() -> usize {
+		T::min_len()
+	}
+}
+
+/// A reference-like user wrapper (`Rc` inside) whose wrapped type is exactly pointer-sized, and
+/// the recursive type built with it: recursion through it must be limited like through `Box`.
+#[derive(PartialEq, Eq, Debug, Clone)]
+pub struct SharedNode(pub std::rc::Rc<UNode>);
+#[derive(Encode, Decode, DecodeWithMemTracking, PartialEq, Eq, Debug, Clone)]
+pub struct UNode {
+	pub next: Option<SharedNode>,
+}
+impl From<UNode> for SharedNode {
+	fn from(n: UNode) -> Self {
+		SharedNode(std::rc::Rc::new(n))
+	}
+}
+impl core::ops::Deref for SharedNode {
+	type Target = UNode;
+	fn deref(&self) -> &UNode {
+		&self.0
+	}
+}
+impl parity_scale_codec::WrapperTypeEncode for SharedNode {}
+impl parity_scale_codec::WrapperTypeDecode for SharedNode {
+	type Wrapped = UNode;
+}
+impl DecodeWithMemTracking for SharedNode {}
+impl Modeled for UNode {
+	fn ty(d: usize) -> String {
+		if d == 0 {
+			"enum 0".into()
+		} else {
+			format!("tup 1 opt box 0 {}", UNode::ty(d - 1))
+		}
+	}
+	fn val(&self, out: &mut String, c: bool) {
+		out.push_str("L 1 ");
+		match &self.next {
+			None => out.push('N'),
+			Some(n) => {
+				out.push_str("S ");
+				n.0.val(out, c)
+			},
+		}
+	}
+	fn gen(g: &mut G) -> Self {
+		if g.depth == 0 || g.rng.chance(1, 3) {
+			UNode { next: None }
+		} else {
+			g.depth -= 1;
+			let t = UNode::gen(g);
+			g.depth += 1;
+			UNode { next: Some(SharedNode(std::rc::Rc::new(t))) }
+		}
+	}
+	fn min_len() -> usize {
+		1
+	}
+}
+
+/// A hand-written `CompactAs` whose `decode_from` can fail (a percentage): `Compact<Percent>` and
+/// `#[codec(compact)] Percent` reject well-formed compact numbers above 100 - in `decode`, in
+/// `skip` and in every derived type. (No model descriptor: implementation-side oracles only.)
+#[derive(PartialEq, Eq, Debug, Clone, Copy, Encode, Decode)]
+pub struct Percent(pub u8);
+impl CompactAs for Percent {
+	type As = u8;
+	fn encode_as(&self) -> &u8 {
+		&self.0
+	}
+	fn decode_from(x: u8) -> Result<Self, parity_scale_codec::Error> {
+		if x <= 100 {
+			Ok(Percent(x))
+		} else {
+			Err("more than 100 percent".into())
+		}
+	}
+}
+impl From<Compact<Percent>> for Percent {
+	fn from(c: Compact<Percent>) -> Self {
+		c.0
+	}
+}
+#[derive(PartialEq, Eq, Debug, Clone, Encode, Decode)]
+pub struct UsesPercent {
+	pub tag: u8,
+	#[codec(compact)]
+	pub share: Percent,
+	pub rest: u16,
+}
+impl Modeled for SharedNode {
+	fn ty(d: usize) -> String {
+		format!("box 0 {}", UNode::ty(d))
+	}
+	fn val(&self, out: &mut String, c: bool) {
+		self.0.val(out, c)
+	}
+	fn gen(g: &mut G) -> Self {
+		SharedNode(std::rc::Rc::new(UNode::gen(g)))
+	}
+	fn min_len() -> usize {
+		1
+	}
+}
